@@ -88,7 +88,9 @@ def gen_case(rng, tier):
         if rng.random() < fault_rate:
             op['fault'] = sorted(set(rng.randint(1, 4) for _ in range(rng.choice([1, 1, 2]))))
         ops.append(op)
-    return {'config': {'installed': installed, 'initial': initial}, 'ops': ops}
+    # the locale that setlocale(category, '') selects (LANG / LC_ALL of the environment) need not be the current one
+    user_default = rng.choice(['C', 'C'] + list(installed)) if installed else 'C'
+    return {'config': {'installed': installed, 'initial': initial, 'user_default': user_default}, 'ops': ops}
 
 
 def simplify(case):
@@ -172,7 +174,7 @@ def run_case(case, world):
     import elementpath
     cfg = case['config']
     loc = world.locale
-    loc.reset(installed=cfg['installed'], initial=cfg['initial'])
+    loc.reset(installed=cfg['installed'], initial=cfg['initial'], user_default=cfg.get('user_default', 'C'))
     loc.log = world.event
     real0 = world.real_lc_collate()
     ctx0 = decimal.getcontext()
